@@ -99,20 +99,58 @@ def merge_kw(m1, m2):
 
 
 def to_call(sig, named, va, extra):
-  if not va:
-    po = [p[0] for p in sig['pos'][:sig.get('posonly', 0)]]
+  if va:
     d = dict((k, v) for k, v in named)
-    return {'args': [d[n] for n in po if n in d],
-            'kwargs': [kv for kv in named if kv[0] not in po] + extra}
+    vals = [d.get(n, dflt) for n, dflt in sig['pos']]
+    if any(v is None for v in vals):
+      # a required positional parameter is unbound: only the keyword form is left (reports it missing)
+      return {'args': [], 'kwargs': named + extra}
+    pos_names = [p[0] for p in sig['pos']]
+    return {'args': vals + va, 'kwargs': [kv for kv in named if kv[0] not in pos_names] + extra}
+  if not va:
+    d = dict((k, v) for k, v in named)
+    pre = list(sig['pos'][:sig.get('posonly', 0)])
+    while pre and pre[-1][0] not in d:
+      pre.pop()      # positional-only parameters after the last supplied one are simply left out
+    vals = [d.get(n, dflt) for n, dflt in pre]
+    if any(v is None for v in vals):
+      return {'args': [], 'kwargs': named + extra}
+    po = [n for n, _ in pre]
+    return {'args': vals, 'kwargs': [kv for kv in named if kv[0] not in po] + extra}
   pos = [p[0] for p in sig['pos']]
   d = dict((k, v) for k, v in named)
   return {'args': [d[n] for n in pos if n in d] + va,
           'kwargs': [kv for kv in named if kv[0] not in pos] + extra}
 
 
-def effective(sig, c1, c2, ignore):
+def apply_late(sig, n1, late):
+  """Named.late: the late-binding operations (rebind / setattr / del on the functor object) on
+  the level of the supplied arguments."""
+  if n1 is None:
+    return None
+  names = sig_names(sig)
+  named, va, extra = [list(kv) for kv in n1[0]], list(n1[1]), [list(kv) for kv in n1[2]]
+  for op in late or ():
+    if op['op'] == 'rebind':
+      dfl = dict((n, d) for n, d in sig['pos'] + sig['kwonly'])
+      for k, v in op['upd']:
+        if k in names:
+          cur = dict((a, b) for a, b in named).get(k, dfl[k])
+          if cur != v:      # writing the value a parameter already has changes nothing
+            named = merge_kw(named, [[k, v]])
+        else:
+          extra = merge_kw(extra, [[k, v]])
+    elif op['op'] == 'set_va':
+      va = list(op['vals'])
+    else:
+      named = [kv for kv in named if kv[0] != op['name']]
+      extra = [kv for kv in extra if kv[0] != op['name']]
+  return named, va, extra
+
+
+def effective(sig, c1, c2, ignore, late=()):
   """Returns dict(call, conflict, va_conflict) or None."""
-  n1 = name_args(sig, c1['args'], c1['kwargs'])
+  n1 = apply_late(sig, name_args(sig, c1['args'], c1['kwargs']), late)
   a2, k2 = (drop_extras(sig, c2['args'], c2['kwargs']) if ignore else (c2['args'], c2['kwargs']))
   n2 = name_args(sig, a2, k2)
   if n1 is None or n2 is None:
@@ -178,6 +216,8 @@ def source_of(case, name):
             '    del rec["self"]\n'
             '    self.rec = rec\n'
             % (name, ', '.join(['self'] + ps), POISON, names, name, ', '.join(['self'] + ps)))
+  if case['kind'] == 'nest':
+    return nest_source(case, name)
   src = 'def %s(%s):\n  return dict(locals())\n' % (name, ', '.join(ps))
   if case.get('via') == 'subclass':
     # class X(pg.Functor) with annotated members and a zero-argument `_call` reading self.<member>
@@ -187,6 +227,39 @@ def source_of(case, name):
             '  def _call(self):\n'
             '    return dict(%s)\n' % (name, members or '  pass\n', body))
   return src
+
+
+def nest_source(case, name):
+  """Two class-based functors sharing member names. The outer one READS the members of the inner
+  one while it executes (`self.other.<m>`), CALLS it, reads again; optionally from a second thread."""
+  members = case['sig_in']['pos']
+  decl = ''.join('  %s: typing.Any%s\n' % (n, '' if d is None else ' = %d' % d) for n, d in members)
+  mine = ', '.join('%s=self.%s' % (n, n) for n, _ in members)
+  names = [n for n, _ in members]
+  ref_in = ', '.join('%s%s' % (n, '' if d is None else '=%d' % d) for n, d in members)
+  return (
+      'def %(N)s_in_ref(%(ref_in)s):\n  return dict(locals())\n'
+      'def %(N)s(other%(comma)s%(ref_in)s):\n  return dict(locals())\n'
+      'class %(N)s_in(pg.Functor):\n%(decl)s'
+      '  def _call(self):\n'
+      '    return dict(%(mine)s)\n'
+      'class %(N)s_out(pg.Functor):\n'
+      '  other: typing.Any\n%(decl)s'
+      '  def _call(self):\n'
+      '    ctx = NEST_CTX\n'
+      '    o = self.other\n'
+      '    r = {}\n'
+      '    r["read"] = ctx["snap"](o, %(names)r)\n'
+      '    r["mine"] = dict(%(mine)s%(comma2)sother=self.other)\n'
+      '    r["called"] = ctx["run"](lambda: o(*ctx["a"], **ctx["k"]))\n'
+      '    r["read_after"] = ctx["snap"](o, %(names)r)\n'
+      '    r["mine_after"] = dict(%(mine)s%(comma2)sother=self.other)\n'
+      '    if ctx["thread"]:\n'
+      '      r["thread_read_self"] = ctx["in_thread"](lambda: ctx["snap"](self, %(names_o)r))\n'
+      '      r["thread_read_inner"] = ctx["in_thread"](lambda: ctx["snap"](o, %(names)r))\n'
+      '      r["thread_called"] = ctx["in_thread"](lambda: ctx["run"](lambda: o(*ctx["a"], **ctx["k"])))\n'
+      '    return r\n' % dict(N=name, ref_in=ref_in, comma=', ' if members else '', decl=decl, mine=mine,
+                              comma2=', ' if members else '', names=names, names_o=['other'] + names))
 
 
 _COUNTER = [0]
@@ -216,6 +289,7 @@ def gen_module():
 # Argument values cross the protocol as ints. Codes <= 0 stand for the falsy Python values; the
 # model treats all of them as opaque scalars.
 SPECIALS = {-1: None, -2: '', -3: False, -4: []}
+INNER = 99      # wire code of `the inner functor object` in nest cases
 
 
 def dec(v):
@@ -235,6 +309,8 @@ def enc(v):
     return -2
   if isinstance(v, (list, tuple)) and len(v) == 0:
     return -4
+  if hasattr(v, 'sym_init_args') and hasattr(v, 'specified_args'):
+    return INNER      # a functor object used as an argument value (nest cases)
   if isinstance(v, bool) or not isinstance(v, int):
     return '<%s>' % type(v).__name__
   return v
@@ -342,7 +418,12 @@ class C18(Prop):
           'plus the falsy values 0 / False, None, \'\', [] at every binding stage; Optional[int] annotations '
           'under auto_typing; a clone of the functor re-bound before the original is called; symbolized EXISTING '
           'classes whose __init__ computes derived state and may raise, driven through histories construct -> '
-          'rebind* (some make __init__ raise, followed by recovering rebinds). Non-trivial: at least one argument is '
+          'rebind* (some make __init__ raise, followed by recovering rebinds; declared parameters and wildcard '
+          'keywords); late binding on the functor object between construction and call (rebind / setattr / del of '
+          'named parameters, of **kwargs entries and of the *args list) combined with every call-time form; '
+          'class-based functors nested as members of class-based functors sharing member names, where the outer '
+          '_call READS the inner members, CALLS the inner functor, reads again, also from a second thread. '
+          'Non-trivial: at least one argument is '
           'supplied and the signature has at least one parameter; distinct: by the whole case.')
   trusted_base = [
       'CPython argument binding (the reference of the differential; pyBind is validated against really '
@@ -359,7 +440,8 @@ class C18(Prop):
   assumptions = ['argument values are opaque scalars (ints and the falsy values None, \'\', False, []); no argument '
                  'is pg.MISSING_VALUE; in one case 0 and False do not both occur (they are == for pyglove)',
                  'for a subclassed functor the member read `self.<m>` inside `_call` is modelled as the bound '
-                 'value overridden by the call-time value (Functor._sym_inferred)',
+                 'value overridden by the call-time value (Functor._sym_inferred); overrides are per functor '
+                 'object and per thread (PgModel OvStore / resolve), tied by the nested-functor cases',
                  'positional-only parameters are not passed by keyword (known finding F62)',
                  'keywords are not named like the *args parameter (pyglove exposes it as a symbolic field)']
 
@@ -493,7 +575,9 @@ class C18(Prop):
     return c1, c2
 
   def gen_case(self, rng, sig=None):
-    kind = rng.weighted([(22, 'cls'), (10, 'hist'), (68, 'functor')])
+    kind = rng.weighted([(22, 'cls'), (10, 'hist'), (8, 'nest'), (60, 'functor')])
+    if kind == 'nest':
+      return self.gen_nest(rng)
     ann = rng.chance(0.3)
     auto_typing = ann and rng.chance(0.5)
     via = 'symbolize'
@@ -594,10 +678,93 @@ class C18(Prop):
     case['c2'] = dict(c2, kwargs=dedupe(c2['kwargs']), **c2f)
     # the call (not the construction) runs under pg.enable_type_check(False) in ~12 % of the cases
     case['tc_call'] = not rng.chance(0.12)
+    if rng.chance(0.22):
+      self.gen_late(rng, case)
     if rng.chance(0.15) and sig_names(sig):
       # a clone of the functor is re-bound before the original is called: must not affect the original
       case['clone_upd'] = [[n, self.val(rng)] for n in rng.sample(sig_names(sig), rng.randint(1, min(2, len(sig_names(sig)))))]
     return case
+
+  def gen_nest(self, rng):
+    """Class-based functors nested as members of other class-based functors, sharing parameter names."""
+    self.set_pool(rng, specials=True)
+    n = rng.randint(1, 3)
+    ndef = rng.randint(0, n)
+    members = [[POS_NAMES[i], self.dflt(rng) if i >= n - ndef else None] for i in range(n)]
+    sig_in = {'pos': members, 'varargs': None, 'kwonly': [], 'varkw': None}
+    sig = {'pos': [['other', None]] + members, 'varargs': None, 'kwonly': [], 'varkw': None}
+    def part(sg, p):
+      c = self.gen_valid_call(rng, sg, partial=p)
+      return {'args': c['args'], 'kwargs': dedupe(c['kwargs'])}
+    ic1, ic2 = part(sig_in, 0.4), part(sig_in, 0.5)
+    oc1, oc2 = part(sig_in, 0.3), part(sig_in, 0.5)     # `other` is placed below
+    if len(oc1['args']) == n + 0 and False:
+      pass
+    where = rng.weighted([(5, 'construct'), (2, 'late'), (3, 'call')])
+    late = []
+    def place(c, here):
+      # `other` is the first positional parameter of the outer functor
+      if here and rng.chance(0.5):
+        return {'args': [INNER] + c['args'], 'kwargs': c['kwargs']}
+      names = [m[0] for m in members]
+      kws = [[names[i], v] for i, v in enumerate(c['args'])] + c['kwargs']
+      return {'args': [], 'kwargs': ([['other', INNER]] if here else []) + kws}
+    oc1 = place(oc1, where == 'construct')
+    oc2 = place(oc2, where == 'call')
+    if where == 'late':
+      late = [{'op': 'rebind', 'upd': [['other', INNER]], 'via': rng.choice(['rebind', 'setattr'])}]
+    def flags(c1, c2):
+      ov = rng.below(4)
+      c1 = dict(c1, override=(ov == 0), ignore=False)
+      c2 = dict(c2, override=(True if ov == 1 else None), ignore=None)
+      return c1, c2
+    ic1, ic2 = flags(ic1, ic2)
+    oc1, oc2 = flags(oc1, oc2)
+    return {'kind': 'nest', 'via': 'subclass', 'ann': False, 'auto_typing': False, 'mode': 'nested',
+            'sig': sig, 'sig_in': sig_in, 'c1': oc1, 'c2': oc2, 'in_c1': ic1, 'in_c2': ic2,
+            'late': late, 'thread': rng.chance(0.5)}
+
+  def gen_late(self, rng, case):
+    """Late binding on the functor object between construction and call: rebind / setattr of named
+    parameters, of wildcard keywords (**kwargs) and of the variadic positional list (*args), and del."""
+    sig = case['sig']
+    names = sig_names(sig)
+    n1 = name_args(sig, case['c1']['args'], case['c1']['kwargs'])
+    if n1 is None:
+      return
+    extras = [k for k, _ in n1[2]]
+    kinds = []
+    if names:
+      kinds += [(3, 'named'), (2, 'del')]
+    if sig['varkw'] is not None:
+      kinds += [(4, 'extra')]
+    if sig['varargs'] is not None:
+      kinds += [(4, 'va')]
+    if not kinds:
+      return
+    ops = []
+    for _ in range(rng.randint(1, 3)):
+      k = rng.weighted(kinds)
+      via = 'setattr' if rng.chance(0.4) else 'rebind'
+      if k == 'named':
+        upd = [[n, self.val(rng)] for n in rng.sample(names, rng.randint(1, min(2, len(names))))]
+        if sig['varkw'] is not None and rng.chance(0.3):
+          e = rng.choice(EXTRA_NAMES)
+          upd.append([e, self.val(rng)])
+          extras.append(e)
+        ops.append({'op': 'rebind', 'upd': upd, 'via': via})
+      elif k == 'extra':
+        upd = [[e, self.val(rng)] for e in rng.sample(EXTRA_NAMES, rng.randint(1, 2))]
+        extras += [e for e, _ in upd]
+        ops.append({'op': 'rebind', 'upd': upd, 'via': via})
+      elif k == 'va':
+        ops.append({'op': 'set_va', 'vals': [self.val(rng) for _ in range(rng.randint(0, 3))], 'via': via})
+      else:
+        cands = names + [e for e in extras]
+        n = rng.choice(cands)
+        ops.append({'op': 'del', 'name': n})
+        extras = [e for e in extras if e != n]
+    case['late'] = ops
 
   def gen_hist(self, rng, case):
     """Symbolized existing class whose __init__ computes derived state and may raise: construct,
@@ -620,6 +787,8 @@ class C18(Prop):
       cur.update((k, v) for k, v in n1[0])
     steps = []
     poisoned = None
+    if n1 is not None:
+      cur.update((k, v) for k, v in n1[2])
     for _ in range(rng.randint(1, 4) if names else 0):
       upd = []
       if poisoned is not None and rng.chance(0.7):
@@ -631,10 +800,12 @@ class C18(Prop):
       for n in rng.sample(names, rng.randint(0 if upd else 1, min(2, len(names)))):
         if all(n != k for k, _ in upd):
           upd.append([n, self.val(rng)])
+      if sig['varkw'] is not None and rng.chance(0.35):
+        upd.append([rng.choice(EXTRA_NAMES), self.val(rng)])     # a wildcard keyword is (re)bound late
       upd = [[k, v] for k, v in upd if cur.get(k, 'unset') != v] or [[names[0], 20 + len(steps)]]
       for k, v in upd:
         cur[k] = v
-      if all(v != POISON for v in cur.values()):
+      if all(cur.get(n) != POISON for n in names):
         poisoned = None
       steps.append({'upd': upd})
     case['steps'] = steps
@@ -676,9 +847,14 @@ class C18(Prop):
   # -- execution --------------------------------------------------------------------------
 
   def model_request(self, case):
+    if case['kind'] == 'nest':
+      return {'kind': 'nest', 'sig': case['sig'], 'sig_in': case['sig_in'], 'c1': case['c1'], 'c2': case['c2'],
+              'in_c1': case['in_c1'], 'in_c2': case['in_c2'], 'late': case.get('late', [])}
     req = {'kind': case['kind'], 'sig': case['sig'], 'c1': case['c1'], 'fix29': True}
     if case['kind'] == 'functor':
       req['c2'] = case['c2']
+      if case.get('late'):
+        req['late'] = case['late']
     if case['kind'] == 'hist':
       req['steps'] = case['steps']
     return req
@@ -715,6 +891,8 @@ class C18(Prop):
 
     if case['kind'] == 'hist':
       return self.impl_hist(case, pg, mod, name, plain, obs)
+    if case['kind'] == 'nest':
+      return self.impl_nest(case, pg, mod, name, obs)
 
     model['py_c1'] = direct(a1, k1)
 
@@ -744,7 +922,7 @@ class C18(Prop):
     ignore = c2['ignore'] if c2['ignore'] is not None else c1['ignore']
     override = c2['override'] if c2['override'] is not None else c1['override']
     model['py_c2'] = direct(a2, k2)
-    eff = effective(sig, c1, c2, ignore)
+    eff = effective(sig, c1, c2, ignore, case.get('late'))
     model['effective'] = eff['call'] if eff else None
     model['py_eff'] = direct(eff['call']['args'], eff['call']['kwargs']) if eff else None
     model['conflict'] = eff['conflict'] if eff else None
@@ -788,6 +966,28 @@ class C18(Prop):
         obj.clone(deep=True).rebind(raise_on_no_change=False, **kw(case['clone_upd']))
       except Exception as e:   # pylint: disable=broad-except
         obs['clone_upd_error'] = type(e).__name__
+    for op in case.get('late', []):
+      # late binding on the functor object itself, before the call
+      try:
+        if op['op'] == 'rebind':
+          if op.get('via') == 'setattr':
+            for k, v in op['upd']:
+              setattr(obj, k, dec(v))
+          else:
+            obj.rebind(raise_on_no_change=False, **kw(op['upd']))
+        elif op['op'] == 'set_va':
+          if op.get('via') == 'setattr':
+            setattr(obj, sig['varargs'], pos(op['vals']))
+          else:
+            obj.rebind(raise_on_no_change=False, **{sig['varargs']: pos(op['vals'])})
+        else:
+          delattr(obj, op['name'])
+      except Exception as e:   # pylint: disable=broad-except
+        obs.setdefault('late_errors', []).append([op, type(e).__name__, str(e)[:120]])
+    if case.get('late'):
+      nl = apply_late(sig, name_args(sig, a1, k1), case['late'])
+      rc = to_call(sig, *nl)
+      obs['py_reported'] = direct(rc['args'], rc['kwargs'])
     model['sym_init_args'] = canon_init_args(obj, missing, sig)
     model['specified'] = sorted(obj.specified_args)
     model['default'] = sorted(obj.default_args)
@@ -822,6 +1022,108 @@ class C18(Prop):
     if obs['json_sets'] is not None:
       model['json_specified'], model['json_default'], model['json_nondefault'] = obs['json_sets']
     model['clone_call'] = obs['clone_call']
+    return {'model': model, 'obs': obs}
+
+  def impl_nest(self, case, pg, mod, name, obs):
+    import threading
+    missing = pg.MISSING_VALUE
+    sig, sig_in = case['sig'], case['sig_in']
+    In, Out = mod.__dict__[name + '_in'], mod.__dict__[name + '_out']
+    in_ref, out_ref = mod.__dict__[name + '_in_ref'], mod.__dict__[name]
+    model = {}
+    holder = {}
+
+    def val(v):
+      return holder['inner'] if v == INNER else dec(v)
+
+    def mk(cls, c, sg):
+      k = {a: val(b) for a, b in c['kwargs']}
+      if c.get('override'):
+        k['override_args'] = True
+      return cls(*[val(v) for v in c['args']], **k)
+
+    def snap(o, names):
+      out = []
+      for n in names:
+        v = getattr(o, n)
+        out.append([n, 'MISSING' if (isinstance(v, type(missing)) and v == missing) else enc(v)])
+      return out
+
+    def run(thunk, sg=sig_in):
+      return outcome(thunk, sg)
+
+    def in_thread(thunk):
+      box = {}
+      def body():
+        try:
+          box['v'] = thunk()
+        except Exception as e:   # pylint: disable=broad-except
+          box['v'] = {'err': 'in-thread:' + type(e).__name__}
+      th = threading.Thread(target=body)
+      th.start()
+      th.join(10)
+      return box.get('v', 'THREAD-TIMEOUT')
+
+    try:
+      holder['inner'] = mk(In, case['in_c1'], sig_in)
+      model['in_init'] = 'ok'
+    except Exception as e:   # pylint: disable=broad-except
+      model['in_init'] = type(e).__name__
+    if 'inner' not in holder:
+      holder['inner'] = In.partial()
+    inner = holder['inner']
+    try:
+      outer = mk(Out, case['c1'], sig)
+      model['out_init'] = 'ok'
+    except Exception as e:   # pylint: disable=broad-except
+      outer = None
+      model['out_init'] = type(e).__name__
+    if outer is None or model['in_init'] != 'ok':
+      if outer is None:
+        model.pop('in_init', None)
+      return {'model': model, 'obs': obs}
+    for op in case.get('late', []):
+      if op.get('via') == 'setattr':
+        setattr(outer, 'other', inner)
+      else:
+        outer.rebind(other=inner)
+    ic2, oc2 = case['in_c2'], case['c2']
+    ik = {a: val(b) for a, b in ic2['kwargs']}
+    if ic2.get('override') is not None:
+      ik['override_args'] = ic2['override']
+    ok = {a: val(b) for a, b in oc2['kwargs']}
+    if oc2.get('override') is not None:
+      ok['override_args'] = oc2['override']
+    mod.__dict__['NEST_CTX'] = {'snap': snap, 'run': run, 'in_thread': in_thread, 'thread': case.get('thread', False),
+                                'a': [val(v) for v in ic2['args']], 'k': ik}
+    inner_before = snap(inner, [n for n, _ in sig_in['pos']])
+    try:
+      r = outer(*[val(v) for v in oc2['args']], **ok)
+      res = {'mine': {'ok': canon_assignment(sig, r['mine'])}, 'read': r['read'], 'called': r['called']}
+      obs['read_after'] = r['read_after']
+      obs['mine_after'] = {'ok': canon_assignment(sig, r['mine_after'])}
+      if case.get('thread'):
+        res['thread_read_self'] = r['thread_read_self']
+        res['thread_read_inner'] = r['thread_read_inner']
+        obs['thread_called'] = r['thread_called']
+      model['call'] = {'ok': res}
+    except Exception as e:   # pylint: disable=broad-except
+      model['call'] = {'err': type(e).__name__}
+    # afterwards the inner functor still reports / uses its own arguments
+    obs['inner_before'] = inner_before
+    obs['inner_after'] = snap(inner, [n for n, _ in sig_in['pos']])
+    obs['inner_call_after'] = run(lambda: inner(*mod.__dict__['NEST_CTX']['a'], **ik))
+    # reference: the plain functions on the effective arguments
+    def ref(fn, sg, c1, c2, late=()):
+      e = effective(sg, c1, c2, False, late)
+      if e is None:
+        return {'err': 'TypeError'}, None
+      if e['conflict'] and not (c2['override'] if c2['override'] is not None else c1['override']):
+        return {'err': 'TypeError'}, e
+      return outcome(lambda: fn(*[val(v) for v in e['call']['args']],
+                                **{a: val(b) for a, b in e['call']['kwargs']}), sg), e
+    obs['ref_mine'], _ = ref(out_ref, sig, case['c1'], case['c2'], case.get('late', []))
+    obs['ref_called'], _ = ref(in_ref, sig_in, case['in_c1'], case['in_c2'])
     return {'model': model, 'obs': obs}
 
   def impl_hist(self, case, pg, mod, name, plain, obs):
@@ -892,6 +1194,8 @@ class C18(Prop):
   def compare(self, case, impl_out, model_out):
     a = impl_out['model']
     b = self.hist_prediction(model_out) if case['kind'] == 'hist' else dict(model_out)
+    if case['kind'] == 'nest' and isinstance(b.get('call'), dict) and 'ok' in b['call'] and not case.get('thread'):
+      b['call'] = {'ok': {k: v for k, v in b['call']['ok'].items() if not k.startswith('thread_')}}
     for k in ('specified', 'default', 'nondefault', 'json_specified', 'json_default', 'json_nondefault'):
       if k in b:
         b[k] = sorted(b[k])
@@ -943,7 +1247,7 @@ class C18(Prop):
     if f:
       return f
     # Generated __init__ signature = signature of the original.
-    if obs['init_signature'] != obs['plain_signature']:
+    if 'init_signature' in obs and obs['init_signature'] != obs['plain_signature']:
       relaxed = [[n, 'POSITIONAL_OR_KEYWORD' if k == 'POSITIONAL_ONLY' else k, d, h]
                  for n, k, d, h in obs['plain_signature']]
       return {'signature': 'posonly-signature' if obs['init_signature'] == relaxed else 'generated-init-signature',
@@ -963,6 +1267,8 @@ class C18(Prop):
 
     if case['kind'] == 'hist':
       return self._oracle_hist(case, out, n1)
+    if case['kind'] == 'nest':
+      return self._oracle_nest(case, out)
 
     if case['kind'] == 'cls':
       f = self._mismatch('direct-construction', m['py_c1'], m['direct'])
@@ -992,13 +1298,23 @@ class C18(Prop):
     if n1 is None:
       return {'signature': 'accepts:%s:construction' % m['py_c1'].get('kind', '?'),
               'what': 'F(*%s, **%s) is accepted, the direct call gives %s' % (c1['args'], c1['kwargs'], m['py_c1'])}
-    f = self._reported(sig, n1, m['sym_init_args'], 'construction', full=False)
+    late = case.get('late')
+    if obs.get('late_errors'):
+      return {'signature': 'late-binding-op-raises:%s' % obs['late_errors'][0][1],
+              'what': 'late binding on the functor object raises: %s' % obs['late_errors'][:1]}
+    if late:
+      n1 = apply_late(sig, n1, late)
+    f = self._reported(sig, n1, m['sym_init_args'], 'late-bound' if late else 'construction', full=False)
     if f:
       return f
     if obs['init_args_after_call'] != m['sym_init_args']:
       return {'signature': 'call-mutates-functor', 'what': 'sym_init_args changed by __call__: %s -> %s' % (m['sym_init_args'], obs['init_args_after_call'])}
-    # construction-time binding: F(*a, **k)() is f(*a, **k)
-    f = self._mismatch('construction-time-binding', m['py_c1'], m['call0'])
+    if late:
+      # re-bound functor: F…() is the plain function called with the REPORTED arguments
+      f = self._mismatch('call-with-reported-args', obs['py_reported'], m['call0'])
+    else:
+      # construction-time binding: F(*a, **k)() is f(*a, **k)
+      f = self._mismatch('construction-time-binding', m['py_c1'], m['call0'])
     if f:
       return f
     # JSON round trip then call; clone then call
@@ -1011,7 +1327,7 @@ class C18(Prop):
         return {'signature': 'roundtrip:%s' % k, 'what': '%s = %s, original %s' % (k, obs[k], m['call'])}
     # the two-stage call
     ignore = c2['ignore'] if c2['ignore'] is not None else c1['ignore']
-    if not (c1['args'] or c1['kwargs']) and not ignore:
+    if not (c1['args'] or c1['kwargs']) and not ignore and not late:
       # late binding: F()(*a, **k) is f(*a, **k), literally
       f = self._mismatch('late-binding', m['py_c2'], m['call'])
       if f:
@@ -1031,8 +1347,53 @@ class C18(Prop):
       return None
     if m['va_conflict'] and not m['override']:
       return None     # observation O1 (prebound *args silently replaced); the property does not fix it
-    stage = 'late-binding' if not (c1['args'] or c1['kwargs']) else 'two-stage'
+    stage = 're-bound-then-call' if late else ('late-binding' if not (c1['args'] or c1['kwargs']) else 'two-stage')
     return self._mismatch(stage, m['py_eff'], m['call'])
+
+  def _oracle_nest(self, case, out):
+    """While the outer functor executes, the inner functor object keeps ITS arguments: reading its
+    members gives its bound arguments, calling it gives in_ref(*its effective arguments); the outer one
+    sees out_ref(*its effective arguments); another thread sees bound arguments only."""
+    m, obs = out['model'], out['obs']
+    if m.get('out_init') != 'ok' or m.get('in_init') != 'ok':
+      return None      # construction-time errors are covered by the functor cases
+    call = m['call']
+    if 'ref_mine' not in obs:
+      return None
+    if 'err' in call:
+      if obs['ref_mine'] != {'err': call['err']}:
+        return {'signature': 'nested:outer-call-raises:%s' % call['err'],
+                'what': 'the outer functor call raises %s, out_ref(*effective) gives %s' % (call['err'], obs['ref_mine'])}
+      return None
+    r = call['ok']
+    sig_in = case['sig_in']
+    n_in = name_args(sig_in, case['in_c1']['args'], case['in_c1']['kwargs'])
+    d = dict((k, v) for k, v in n_in[0])
+    bound_inner = [[n, d.get(n, dflt if dflt is not None else 'MISSING')] for n, dflt in sig_in['pos']]
+    if r['mine'] != obs['ref_mine']:
+      return {'signature': 'nested:outer-members', 'what': 'outer members during the call %s, out_ref(*effective) %s' % (r['mine'], obs['ref_mine'])}
+    for key, got in (('read', r['read']), ('read_after', obs['read_after']), ('inner_after', obs['inner_after']),
+                     ('thread_read_inner', r.get('thread_read_inner', bound_inner))):
+      if got != bound_inner:
+        return {'signature': 'nested:inner-members-leak:%s' % key,
+                'what': 'while the outer functor executes (%s), the inner functor object reads %s; its own bound arguments '
+                        'are %s' % (key, got, bound_inner)}
+    for key, got in (('called', r['called']), ('inner_call_after', obs['inner_call_after']),
+                     ('thread_called', obs.get('thread_called', obs['ref_called']))):
+      if got != obs['ref_called']:
+        return {'signature': 'nested:inner-call:%s' % key,
+                'what': 'calling the inner functor (%s) gives %s, in_ref(*effective) gives %s' % (key, got, obs['ref_called'])}
+    if obs['mine_after'] != obs['ref_mine']:
+      return {'signature': 'nested:outer-members-after-inner-call',
+              'what': 'after calling the inner functor the outer members read %s, expected %s' % (obs['mine_after'], obs['ref_mine'])}
+    if 'thread_read_self' in r:
+      n_out = apply_late(case['sig'], name_args(case['sig'], case['c1']['args'], case['c1']['kwargs']), case.get('late', []))
+      d = dict((k, v) for k, v in n_out[0])
+      bound_outer = [[n, d.get(n, dflt if dflt is not None else 'MISSING')] for n, dflt in case['sig']['pos']]
+      if r['thread_read_self'] != bound_outer:
+        return {'signature': 'nested:overrides-visible-in-other-thread',
+                'what': 'another thread reads %s from the executing functor; its bound arguments are %s' % (r['thread_read_self'], bound_outer)}
+    return None
 
   def _oracle_hist(self, case, out, n1):
     """After every step of construct -> rebind -> rebind ...: the wrapper either is in the state of
@@ -1074,7 +1435,8 @@ class C18(Prop):
               'what': 'after construction the wrapper holds %s, the original %s' % (m['rec'], py['ok'])}
     defaults = dict((n, d) for n, d in sig['pos'] + sig['kwonly'] if d is not None)
     for i, (st, o) in enumerate(zip(case['steps'], m['steps'])):
-      named = merge_kw(named, st['upd'])
+      named = merge_kw(named, [kv for kv in st['upd'] if kv[0] in sig_names(sig)])
+      extra = merge_kw(extra, [kv for kv in st['upd'] if kv[0] not in sig_names(sig)])
       f = self._reported(sig, (named, va, extra), o['args'], 'history-step', full=True)
       if f:
         return f
@@ -1143,7 +1505,8 @@ class C18(Prop):
       h.append('annotated%s' % ('+auto_typing' if case.get('auto_typing') else ''))
     if not case.get('tc_call', True):
       h.append('call-under-type-check-off')
-    h.append('py_c1:%s' % (m['py_c1'].get('kind') or 'ok'))
+    if 'py_c1' in m:
+      h.append('py_c1:%s' % (m['py_c1'].get('kind') or 'ok'))
     h.append('via:%s' % case.get('via'))
     vals = [v for c in [case['c1'], case.get('c2') or {'args': [], 'kwargs': []}]
             for v in list(c['args']) + [x for _, x in c['kwargs']]]
@@ -1154,6 +1517,18 @@ class C18(Prop):
       h.append('Optional-annotation')
     if case.get('clone_upd'):
       h.append('clone-rebound-before-call')
+    for op in case.get('late', []):
+      h.append('late-op:%s%s' % (op['op'], ':' + op['via'] if 'via' in op else ''))
+      if op['op'] == 'rebind' and any(k not in sig_names(sig) for k, _ in op['upd']):
+        h.append('late-op:wildcard-keyword')
+    if case['kind'] == 'nest':
+      h.append('nest:other-bound-at-%s' % ('late' if case.get('late') else ('call' if any(k == 'other' for k, _ in case['c2']['kwargs']) else 'construct')))
+      h.append('nest:thread=%s' % case.get('thread'))
+      if 'call' in m:
+        h.append('nest:call:%s' % (m['call'].get('err') or 'ok'))
+        if 'ok' in m['call']:
+          h.append('nest:inner-called:%s' % (m['call']['ok']['called'].get('err') or 'ok'))
+      return h
     if case['kind'] == 'hist':
       h.append('hist-init:%s' % m['init'])
       h.append('hist-steps:%d' % len(m['steps']))
@@ -1189,6 +1564,22 @@ class C18(Prop):
 
   def shrink_candidates(self, case):
     import copy
+    if case['kind'] == 'nest':
+      if case.get('thread'):
+        cand = copy.deepcopy(case)
+        cand['thread'] = False
+        yield cand
+      for cn in ('c1', 'c2', 'in_c1', 'in_c2'):
+        for i, (k, v) in enumerate(case[cn]['kwargs']):
+          if v != INNER:
+            cand = copy.deepcopy(case)
+            cand[cn]['kwargs'].pop(i)
+            yield cand
+        if case[cn]['args'] and case[cn]['args'][-1] != INNER:
+          cand = copy.deepcopy(case)
+          cand[cn]['args'].pop()
+          yield cand
+      return
     calls = ['c1'] + (['c2'] if case['kind'] == 'functor' else [])
     for cn in calls:
       c = case[cn]
@@ -1204,6 +1595,12 @@ class C18(Prop):
     used = {k for cn in calls for k, _ in case[cn]['kwargs']}
     used |= {k for st in case.get('steps', []) for k, _ in st['upd']}
     used |= {k for k, _ in case.get('clone_upd', [])}
+    used |= {k for op in case.get('late', []) for k, _ in op.get('upd', [])}
+    used |= {op['name'] for op in case.get('late', []) if 'name' in op}
+    for i in range(len(case.get('late', []))):
+      cand = copy.deepcopy(case)
+      cand['late'].pop(i)
+      yield cand
     used |= set(case.get('optional', []))
     for i in range(len(case.get('steps', []))):
       cand = copy.deepcopy(case)
